@@ -302,6 +302,10 @@ FIXED_CONTEXT = {
 }
 
 
+# header records whose serialisation has one byte order by the spec (for impls of crate-local traits on them)
+FIXED_SELF = {"dlt::StandardHeader": "BE", "dlt::ExtendedHeader": "BE", "dlt::StorageHeader": "LE"}
+
+
 def const_bytes_of(facts, body, defs, o, depth=0):
     """If the operand is (a reference/unsizing of) a constant byte string, return it."""
     if depth > 8:
@@ -367,6 +371,9 @@ def check(ctx, bodies, rule="ORD-1", paired=()):
         ctxc = body_context(b)
         if ctxc is None:
             ctxc = FIXED_CONTEXT.get(p)
+        if ctxc is None and b.get("impl_self") in FIXED_SELF and b.get("impl_trait") and not str(b.get("impl_trait")).startswith(("std::", "core::")):
+            # a method of a crate-local trait implemented for one of the header records: the record's byte order
+            ctxc = FIXED_SELF[b["impl_self"]]
         impl_order = None
         if b.get("impl_trait") == "parse::NomByteOrder":
             impl_order = ORDER_TYPES.get(b.get("impl_self"))
@@ -445,6 +452,15 @@ def check(ctx, bodies, rule="ORD-1", paired=()):
                         else:
                             R.violation(rule, key + "|" + str(bo), "%s (%s) is not selected by the matching `endianness == Big` branch (control dependence gives %s)" % (desc, oc, bo), file=fl, line=ln, function=p)
                         continue
+                    if oc in ("BE", "LE") and not is_paired:
+                        # a dispatch site that is not in the caller's list: the reference is fine when it is control
+                        # dependent on the matching side of an endianness test in this very function
+                        if dom is None:
+                            dom, _ = cfg.dominators(b)
+                            disp = endianness_dispatches(F, b)
+                        if disp and branch_order(b, disp, bi, dom) == oc:
+                            R.instance(rule, "%s: %s paired with endianness==%s ok" % (p, desc, "Big" if oc == "BE" else "Little"))
+                            continue
                     if oc in ("BE", "LE") and caller_context(F, p) == oc:
                         R.instance(rule, "%s: %s [%s inherited from every user of this private helper] ok" % (p, desc, oc))
                         continue
